@@ -519,3 +519,100 @@ Definition hard_case_violation (k : hard_case) : bool :=
          list_eqb zlist_eqb j i || list_eqb zlist_eqb (j ++ [[10]]) i)).
 Definition c16_hard_mismatches (cases : list hard_case) : list Z := bad_indices hard_case_mismatch cases.
 Definition c16_hard_violations (cases : list hard_case) : list Z := bad_indices hard_case_violation cases.
+
+(* ---------- Text.drawSoftwrap / RichText.drawSoftwrap ---------- *)
+(* [lines]: the emitted lines as the characters that are drawn (text.go: ctx.Characters(scanner.Text()),
+   an oracle answer shipped with the case; richtext.go: scanner.Text() itself).
+   [restyle]: text.go draws every character in the widget's style; richtext.go keeps the cell's. *)
+
+(* findContainerSize, soft-wrap branch *)
+Fixpoint container_size (lines : list (list cell)) (MaxW MaxH W H : Z) : Z * Z :=
+  match lines with
+  | [] => (W, H)
+  | l :: t =>
+      if MaxH <=? H then (W, H)
+      else
+        let w := u16sum l in
+        let W1 := if W <? w then w else W in
+        let W2 := if MaxW <? W1 then MaxW else W1 in
+        container_size t MaxW MaxH W2 (u16 (H + 1))
+  end.
+
+(* Surface.WriteCell: None = index out of range *)
+Definition write_cell (W H : Z) (buf : list cell) (col row : Z) (c : cell) : option (list cell) :=
+  if (W <=? col) || (H <=? row) then Some buf else zupd buf (row * W + col) c.
+
+Fixpoint draw_chars (restyle : cell -> cell) (MaxW W H row : Z) (chars : list cell) (col : Z) (buf : list cell)
+  : option (list cell) :=
+  match chars with
+  | [] => Some buf
+  | ch :: t =>
+      if MaxW <=? col then Some buf
+      else match write_cell W H buf col row (restyle ch) with
+           | None => None
+           | Some buf' => draw_chars restyle MaxW W H row t (u16 (col + cw ch)) buf'
+           end
+  end.
+
+Fixpoint draw_rows (restyle : cell -> cell) (MaxW MaxH W H : Z) (lines : list (list cell)) (row : Z) (buf : list cell)
+  : option (list cell) :=
+  match lines with
+  | [] => Some buf
+  | l :: t =>
+      if MaxH <? row then Some buf
+      else match draw_chars restyle MaxW W H row l 0 buf with
+           | None => None
+           | Some buf' => draw_rows restyle MaxW MaxH W H t (u16 (row + 1)) buf'
+           end
+  end.
+
+(* NewSurface + Fill(style) (richtext.go does not fill: style 0) *)
+Definition blank (style : Z) : cell := mkCell [] 0 style.
+
+Definition draw_softwrap (restyle : cell -> cell) (fill : Z) (lines : list (list cell)) (MaxW MaxH : Z)
+  : option (Z * Z * list cell) :=
+  let '(W, H) := container_size lines MaxW MaxH 0 0 in
+  match draw_rows restyle MaxW MaxH W H lines 0 (zrepeat (blank fill) (H * W)) with
+  | None => None
+  | Some buf => Some (W, H, buf)
+  end.
+
+Definition plain_restyle (style : Z) (c : cell) : cell := mkCell (c_runes c) (c_width c) style.
+
+(* the property on one observed surface: it has min(#lines, Max.Height) rows, and in row i the cell
+   at column c is the character of line i that starts at column c (the last such one if a
+   zero-width character shares the column), blank otherwise; characters starting at or beyond
+   the surface width are not drawn *)
+Fixpoint cell_at (restyle : cell -> cell) (W : Z) (chars : list cell) (col c : Z) (acc : cell) : cell :=
+  match chars with
+  | [] => acc
+  | ch :: t => if W <=? col then acc
+               else cell_at restyle W t (col + c_width ch) c (if col =? c then restyle ch else acc)
+  end.
+
+Definition surface_ok_b (restyle : cell -> cell) (fill : Z) (lines : list (list cell)) (MaxW MaxH : Z)
+           (obs : Z * Z * list cell) : bool :=
+  let '(W, H, buf) := obs in
+  (H =? Z.min (zlen lines) MaxH) && (zlen buf =? H * W) && (W <=? MaxW) &&
+  forallb (fun i =>
+     forallb (fun c =>
+        match zget buf (i * W + c), zget lines i with
+        | Some x, Some l => cell_eqb x (cell_at restyle W l 0 c (blank fill))
+        | _, _ => false
+        end) (map Z.of_nat (seq 0 (Z.to_nat W)))) (map Z.of_nat (seq 0 (Z.to_nat H))).
+
+(* draw case: (is_rich, style, MaxW, MaxH, lines as drawn characters, observed (W, H, buffer)) *)
+Definition draw_case := (bool * Z * Z * Z * list (list cell) * (Z * Z * list cell))%type.
+Definition draw_restyle (rich : bool) (style : Z) : cell -> cell :=
+  if rich then (fun c => c) else plain_restyle style.
+Definition draw_case_mismatch (k : draw_case) : bool :=
+  let '(rich, style, MaxW, MaxH, lines, (W, H, buf)) := k in
+  match draw_softwrap (draw_restyle rich style) (if rich then 0 else style) lines MaxW MaxH with
+  | None => true
+  | Some (W', H', buf') => negb ((W =? W') && (H =? H') && list_eqb cell_eqb buf buf')
+  end.
+Definition draw_case_violation (k : draw_case) : bool :=
+  let '(rich, style, MaxW, MaxH, lines, obs) := k in
+  negb (surface_ok_b (draw_restyle rich style) (if rich then 0 else style) lines MaxW MaxH obs).
+Definition c16_draw_mismatches (cases : list draw_case) : list Z := bad_indices draw_case_mismatch cases.
+Definition c16_draw_violations (cases : list draw_case) : list Z := bad_indices draw_case_violation cases.
